@@ -255,17 +255,17 @@ struct ProbeResults {
 static RESULTS: OnceLock<ProbeResults> = OnceLock::new();
 
 fn probes_root() -> PathBuf {
-    Path::new(VERIF_ROOT).join("work").join("probes")
+    verif_root().join("work").join("probes")
 }
 /// cargo-check a stub crate against the live /repo to obtain rrtk's metadata, then compile every
 /// probe and control with rustc individually (one crate each: exact attribution, no error masking).
 fn compile_all() -> ProbeResults {
     let root = probes_root();
     let base = root.join("base");
-    let target = Path::new(VERIF_ROOT).join("work").join("target-probes");
+    let target = verif_root().join("work").join("target-probes");
     let fail = |m: String| ProbeResults { results: HashMap::new(), error: Some(m) };
     let _ = std::fs::create_dir_all(base.join("src"));
-    let _ = std::fs::write(base.join("Cargo.toml"), "[package]\nname = \"probe_base\"\nversion = \"0.1.0\"\nedition = \"2021\"\n[dependencies]\nrrtk = { path = \"/repo\", features = [\"devices\"] }\n[workspace]\n");
+    let _ = std::fs::write(base.join("Cargo.toml"), "[package]\nname = \"probe_base\"\nversion = \"0.1.0\"\nedition = \"2021\"\n[dependencies]\nrrtk = { path = \"REPO\", features = [\"devices\"] }\n[workspace]\n".replace("REPO", &repo_root()));
     let _ = std::fs::write(base.join("src/lib.rs"), "pub use rrtk;\n");
     let out = Proc::new("cargo").args(["check", "--offline", "--quiet", "--message-format=json", "--manifest-path"]).arg(base.join("Cargo.toml")).arg("--target-dir").arg(&target).env_remove("RUSTFLAGS").output();
     let out = match out {
@@ -382,9 +382,11 @@ fn check_probe(id: &str, control: bool) -> CheckResult {
 }
 
 fn check_miri(max_arity: u8) -> CheckResult {
-    let dir = Path::new(VERIF_ROOT).join("miri_c16");
+    let dir = verif_root().join("miri_c16");
     let out = Proc::new("cargo")
-        .args(["+nightly", "miri", "run", "--offline", "--quiet", "--target-dir", "/verif/work/target-miri", "--"])
+        .args(["+nightly", "miri", "run", "--offline", "--quiet", "--target-dir"])
+        .arg(verif_root().join("work").join("target-miri"))
+        .arg("--")
         .arg(max_arity.to_string())
         .current_dir(&dir)
         .env_remove("RUSTFLAGS")
